@@ -505,7 +505,12 @@ Definition cb_bump (t : ent) (cb : cbrec) (once_taken : bool) (w : world) : worl
 (* the taken inner closure of a `once` reactor (and its canary) is dropped when the wrapper returns *)
 Definition once_finish (t : ent) (tk : token) (w : world) : world :=
   match alookup t (cbs w) with
-  | Some cb' => emit (EvDropSys t) (w <| cbs := aupd t (mkCb (cb_once cb') (cb_runno cb') (cb_captured cb') true false) (cbs w) |>)
+  | Some cb' =>
+      (* only a once wrapper is ever finished this way; for any other record nothing but the log line happens *)
+      let once := match cb_once cb' with Some _ => true | None => false end in
+      emit (EvDropSys t) (w <| cbs := aupd t (mkCb (cb_once cb') (cb_runno cb') (cb_captured cb')
+                                                  (if once then true else cb_taken cb') (if once then false else cb_live cb')) (cbs w) |>
+                            <| g_sdrops ::= fun l => if once && cb_live cb' then t :: l else l |>)
   | None => w end.
 (* ghost assertion on the private state: the values the body is about to log are the ones stored for this system *)
 Definition state_ok_b (t : ent) (runno captured : N) (w : world) : bool :=
